@@ -45,7 +45,7 @@ func Attribute(m Mismatch, running string) string {
 		return "C08"
 	case "accepted-invalid":
 		switch {
-		case has("!reuse", "!intx", "reuse-gone"):
+		case has("!reuse", "!intx", "reuse-gone", "confuse"):
 			return "C02"
 		case has("!badsig", "!nosig", "!wrongkey", "!newkeys"):
 			return "C03"
